@@ -515,6 +515,16 @@ def run_c27(ctx, replay_path=None):
     pats = [0, 1, 2] if ctx.thorough else [ctx.seed % 3]
     step = 1 if ctx.thorough else 3
     cells = 0
+    shapes = [(0x12, 1), (0x08, 9), (0x0c, 6), (0x16, 3), (0x0f, 24), (0x03, 23), (0x0a, 1), (0x0b, 1), (0x06, 1), (0x02, 2),
+              (0x00, 12), (0x01, 8), (0x18, 5), (0x07, 2), (0x0d, 2), (0x11, 3)]
+    if not ctx.thorough:      # the recognised shapes get all three payload patterns in the quick tier as well
+        for cfg in (0, 1):
+            for pat in (0, 1, 2):
+                if pat not in pats:
+                    for opcode, size in shapes:
+                        sessions.append(["reset %d" % cfg, "connect 24 72", "ev", "ev " + table_pdu(opcode, size, pat), "ev", "ev"])
+                        kinds.append(("table", cfg))
+                        cells += 1
     for cfg in (0, 1):
         for pat in pats:
             for opcode in range(256):
